@@ -59,6 +59,23 @@ type Server struct {
 	nconn  int
 	closed bool
 	wg     sync.WaitGroup
+	// Handler, if set, executes every statement that carries no data blocks (DDL, SELECT, INSERT with its values
+	// in the text): it returns the result column (nil = a statement without result) or the server exception to
+	// answer with. Without a handler such statements are refused with code 60.
+	Handler func(db, body string) (res *Result, exc *Exc)
+}
+
+// Exc is a server exception to answer with.
+type Exc struct {
+	Code          int
+	Name, Message string
+}
+
+// Result is a one-column result set.
+type Result struct {
+	Name   string
+	Type   string // "String" | "UInt64"
+	Values []any
 }
 
 // Start listens on 127.0.0.1:0.
@@ -208,6 +225,7 @@ type conn struct {
 	rev    int
 	client string
 	lib    string
+	db     string
 }
 
 func (c *conn) ev(kind, body string) Event {
@@ -250,7 +268,7 @@ func (s *Server) serve(nc net.Conn, id int) {
 		s.add(c.ev(KError, "hello: "+err.Error()))
 		return
 	}
-	c.client, c.lib = h.Name, LibOf(h.Name)
+	c.client, c.lib, c.db = h.Name, LibOf(h.Name), h.Database
 	c.rev = Revision
 	if h.ProtocolVersion < c.rev {
 		c.rev = h.ProtocolVersion
@@ -326,6 +344,9 @@ func (c *conn) expectData(compressed bool) (rows, cols int, err error) {
 }
 
 var errCancelled = fmt.Errorf("cancelled by client")
+
+// an INSERT whose rows follow in data blocks ends with VALUES (or has no VALUES / FORMAT clause at all)
+var insertTailRe = regexp.MustCompile(`(?is)(VALUES|FORMAT\s+\w+)\s*;?\s*$|^[^()]*\([^)]*\)\s*$|^\s*INSERT\s+INTO\s+\S+\s*$`)
 
 var insertRe = regexp.MustCompile(`(?is)^\s*INSERT\s+INTO\s+([^\s(]+)\s*(?:\(([^)]*)\))?`)
 
@@ -412,6 +433,57 @@ func (c *conn) query() bool {
 		if rows == 0 && ncols == 0 {
 			break
 		}
+	}
+	if h := c.s.Handler; h != nil && !(isInsert && insertTailRe.MatchString(q.Body)) {
+		res, ex := h(c.db, q.Body)
+		if ex != nil {
+			proto.ServerCodeException.Encode(&c.w)
+			(&proto.Exception{Code: proto.Error(ex.Code), Name: ex.Name, Message: ex.Message}).EncodeAware(&c.w, c.rev)
+			c.s.add(c.ev(KException, fmt.Sprintf("code=%d %s", ex.Code, ex.Message)))
+			return c.flush() == nil
+		}
+		if res != nil {
+			if compressed {
+				return c.exception(1000, "verif fake ClickHouse: compressed result blocks are not built") == nil
+			}
+			// header block (no rows), then the rows
+			for _, withRows := range []bool{false, true} {
+				var data proto.ColInput
+				n := 0
+				switch res.Type {
+				case "UInt64":
+					col := new(proto.ColUInt64)
+					if withRows {
+						for _, v := range res.Values {
+							col.Append(v.(uint64))
+						}
+						n = len(res.Values)
+					}
+					data = col
+				default:
+					col := new(proto.ColStr)
+					if withRows {
+						for _, v := range res.Values {
+							col.Append(fmt.Sprint(v))
+						}
+						n = len(res.Values)
+					}
+					data = col
+				}
+				if withRows && n == 0 {
+					break
+				}
+				proto.ServerCodeData.Encode(&c.w)
+				c.w.PutString("")
+				in := []proto.InputColumn{{Name: res.Name, Data: data}}
+				if err := (proto.Block{Columns: 1, Rows: n, Info: proto.BlockInfo{BucketNum: -1}}).EncodeBlock(&c.w, c.rev, in); err != nil {
+					c.s.add(c.ev(KError, "encode result: "+err.Error()))
+					return false
+				}
+			}
+		}
+		proto.ServerCodeEndOfStream.Encode(&c.w)
+		return c.flush() == nil
 	}
 	if !isInsert {
 		return c.exception(60, "verif fake ClickHouse: table does not exist (statement logged, not executed)") == nil
